@@ -272,4 +272,169 @@ func emitDtlcpTx(e *emitter, p *pkg) {
 	e.boolean("rxfNonAppDataNotReturned", isContinue(findIf(p, "Conn.ReadFrom", "actualTyp != recordTypeApplicationData")))
 	// Read path: an empty application record is skipped
 	e.boolean("rxReadSkipsEmptyAppData", isContinue(findIf(p, "Conn.readRecordOrCCS", "len(data) == 0")))
+
+	emitDtlcpTxConfig(e, p, listFact)
+}
+
+// emitDtlcpTxConfig: which *Config `c.config.PMTU` is read from — every way a configuration
+// reaches (or is replaced on) a connection, and every place the PMTU field is written.
+//   txCfgCtor      the value stored under `config:` by the Conn literal of Client and of Server
+//   txCfgAssigns   every assignment to a `.config` selector in the package, "<func>: <stmt>"
+//   txCfgForClient the statement shape of selectConfigForClient around GetConfigForClient:
+//                  guard, call, and what the non-nil result is assigned to
+//   txPmtuWrites   every assignment / inc-dec whose target is a `.PMTU` selector, "<func>: <stmt>"
+//   txPmtuLits     every `PMTU: <expr>` key of a composite literal, "<func>: <expr>"
+//   clonePmtu      the value Config.Clone stores under PMTU ("" when the key is absent)
+func emitDtlcpTxConfig(e *emitter, p *pkg, listFact func(string, []string, bool)) {
+	e.comment("dtlcp.go / handshake_*.go / common.go: the configuration whose PMTU the write path reads (C15)")
+	var ctor []string
+	okCtor := true
+	for _, fn := range []string{"Client", "Server"} {
+		v := ""
+		if fd := p.funcs[fn]; fd != nil && fd.Body != nil {
+			ast.Inspect(fd.Body, func(n ast.Node) bool {
+				cl, ok := n.(*ast.CompositeLit)
+				if !ok || p.src(cl.Type) != "Conn" {
+					return true
+				}
+				for _, el := range cl.Elts {
+					if kv, ok := el.(*ast.KeyValueExpr); ok && p.src(kv.Key) == "config" {
+						v = p.src(kv.Value)
+					}
+				}
+				return true
+			})
+		}
+		if v == "" {
+			okCtor = false
+		}
+		ctor = append(ctor, fn+": "+v)
+	}
+	listFact("txCfgCtor", ctor, okCtor)
+
+	var cfgAssigns, pmtuWrites, pmtuLits []string
+	keys := make([]string, 0, len(p.funcs))
+	for k := range p.funcs {
+		keys = append(keys, k)
+	}
+	sortStrings(keys)
+	for _, k := range keys {
+		fd := p.funcs[k]
+		if fd.Body == nil {
+			continue
+		}
+		ast.Inspect(fd.Body, func(n ast.Node) bool {
+			switch s := n.(type) {
+			case *ast.AssignStmt:
+				for _, l := range s.Lhs {
+					if se, ok := l.(*ast.SelectorExpr); ok {
+						switch se.Sel.Name {
+						case "config":
+							cfgAssigns = append(cfgAssigns, k+": "+p.src(s))
+						case "PMTU":
+							pmtuWrites = append(pmtuWrites, k+": "+p.src(s))
+						}
+					}
+				}
+			case *ast.IncDecStmt:
+				if se, ok := s.X.(*ast.SelectorExpr); ok && se.Sel.Name == "PMTU" {
+					pmtuWrites = append(pmtuWrites, k+": "+p.src(s))
+				}
+			case *ast.UnaryExpr:
+				// &x.PMTU / &c.config: an alias through which the field could be written
+				if s.Op.String() == "&" {
+					if se, ok := s.X.(*ast.SelectorExpr); ok && se.Sel.Name == "PMTU" {
+						pmtuWrites = append(pmtuWrites, k+": "+p.src(s))
+					}
+				}
+			case *ast.KeyValueExpr:
+				if id, ok := s.Key.(*ast.Ident); ok && id.Name == "PMTU" {
+					pmtuLits = append(pmtuLits, k+": "+p.src(s.Value))
+				}
+			}
+			return true
+		})
+	}
+	e.strList("txCfgAssigns", cfgAssigns)
+	e.strList("txPmtuWrites", pmtuWrites)
+	e.strList("txPmtuLits", pmtuLits)
+
+	// selectConfigForClient
+	var fc []string
+	fn := "Conn.selectConfigForClient"
+	if is := findIf(p, fn, "c.config.GetConfigForClient != nil"); is != nil {
+		fc = append(fc, "if "+p.src(is.Cond))
+		ast.Inspect(is.Body, func(n ast.Node) bool {
+			switch s := n.(type) {
+			case *ast.AssignStmt:
+				if len(s.Rhs) == 1 {
+					if call, ok := s.Rhs[0].(*ast.CallExpr); ok && p.src(call.Fun) == "c.config.GetConfigForClient" {
+						fc = append(fc, p.src(s))
+					}
+				}
+			case *ast.IfStmt:
+				if len(s.Body.List) == 1 {
+					if as, ok := s.Body.List[0].(*ast.AssignStmt); ok && len(as.Lhs) == 1 && p.src(as.Lhs[0]) == "c.config" {
+						fc = append(fc, "if "+p.src(s.Cond)+" { "+p.src(as)+" }")
+					}
+				}
+			}
+			return true
+		})
+	}
+	listFact("txCfgForClient", fc, len(fc) > 0)
+	// the call site: serverHandshake-side functions that call selectConfigForClient
+	var callers []string
+	for _, k := range keys {
+		fd := p.funcs[k]
+		if fd.Body == nil {
+			continue
+		}
+		hit := false
+		ast.Inspect(fd.Body, func(n ast.Node) bool {
+			if c, ok := n.(*ast.CallExpr); ok && p.src(c.Fun) == "c.selectConfigForClient" {
+				hit = true
+			}
+			return true
+		})
+		if hit {
+			callers = append(callers, k)
+		}
+	}
+	listFact("txCfgForClientCallers", callers, len(callers) > 0)
+
+	// Config.Clone: the PMTU key of the returned literal
+	clonePmtu, okClone := "", false
+	if fd := p.funcs["Config.Clone"]; fd != nil && fd.Body != nil {
+		ast.Inspect(fd.Body, func(n ast.Node) bool {
+			if cl, ok := n.(*ast.CompositeLit); ok && p.src(cl.Type) == "Config" {
+				okClone = true
+				for _, el := range cl.Elts {
+					if kv, ok := el.(*ast.KeyValueExpr); ok && p.src(kv.Key) == "PMTU" {
+						clonePmtu = p.src(kv.Value)
+					}
+				}
+			}
+			return true
+		})
+	}
+	// an absent key is a fact (the clone gets the zero value), not a missing extraction
+	e.str("clonePmtu", clonePmtu)
+	if !okClone {
+		e.missing = append(e.missing, e.key("clonePmtu"))
+	}
+	// the receiver name Clone copies from, so that "c.PMTU" can be read as "the receiver's PMTU"
+	recv := ""
+	if fd := p.funcs["Config.Clone"]; fd != nil && fd.Recv != nil && len(fd.Recv.List) == 1 && len(fd.Recv.List[0].Names) == 1 {
+		recv = fd.Recv.List[0].Names[0].Name
+	}
+	e.str("cloneRecv", recv)
+}
+
+func sortStrings(a []string) {
+	for i := 1; i < len(a); i++ {
+		for j := i; j > 0 && a[j] < a[j-1]; j-- {
+			a[j], a[j-1] = a[j-1], a[j]
+		}
+	}
 }
